@@ -1352,6 +1352,12 @@ def generate_loopy(result: Array | AbstractResultWithNamedArrays | dict[str, Arr
          for name, output in outputs._data.items()},
         tags=outputs.tags)
 
+    # Stripping the tag can leave equal-but-distinct arrays behind (one array
+    # under two output names, or an output that now equals another node):
+    # re-establish the one-object-per-array form the mappers below expect.
+    from pytato.transform import deduplicate
+    outputs = deduplicate(outputs)
+
     compute_order = preproc_result.compute_order
 
     if options is None:
